@@ -12,6 +12,14 @@ let fidelity asis_val got =
   | [ "ok"; g ] -> "asis=" ^ if hx asis_val = g then "same" else "diff"
   | _ -> "asis=na"
 
+(* word-level as-is models run on 64-bit word lists (the harness build's word size) *)
+let w64 = Zar.of_int 64
+let rec nat_of_int n = if n <= 0 then O else S (nat_of_int (n - 1))
+let words_of v = to_words w64 (nat_of_int ((Zar.numbits v + 63) / 64)) v
+let fid_opt model got = match got with
+  | [ "ok"; "some"; g ] -> "asis=" ^ (if hx model = g then "same" else "diff")
+  | _ -> "asis=na"
+
 let prim_bits ty = match ty with
   | "u8" | "i8" -> 8 | "u16" | "i16" -> 16 | "u32" | "i32" -> 32
   | "u64" | "i64" | "usize" | "isize" -> 64 | _ -> 128
@@ -45,12 +53,23 @@ let judge op args got =
   | "shr_r" -> let x = a 0 in let s, m = sm x in
       expect ~extra:(fidelity (ibig_shr_ref_gen s m (n 1)) got) ("ok " ^ hx (Zar.shift_right x (Zar.to_int (n 1)))) got
   | "ushr" | "ushr_r" -> expect ("ok " ^ hx (Zar.shift_right (a 0) (Zar.to_int (n 1)))) got
-  | "bit" | "ubit" -> expect ("ok " ^ b2s (Zar.testbit (a 0) (Zar.to_int (n 1)))) got
+  | "ubit" ->
+      let x = a 0 in
+      let extra = if Zar.numbits x > 128 then (match got with [ "ok"; g ] -> "asis=" ^ (if b2s (bit_large w64 (words_of x) (n 1)) = g then "same" else "diff") | _ -> "") else "" in
+      expect ~extra ("ok " ^ b2s (Zar.testbit x (Zar.to_int (n 1)))) got
+  | "bit" -> expect ("ok " ^ b2s (Zar.testbit (a 0) (Zar.to_int (n 1)))) got
   | "bit_len" | "ubit_len" -> expect ("ok " ^ hx (bit_len_spec (a 0))) got
   | "set_bit" -> expect ("ok " ^ hx (set_bit_spec (a 0) (n 1))) got
   | "clear_bit" -> expect ("ok " ^ hx (clear_bit_spec (a 0) (n 1))) got
-  | "utz" | "tz" -> expect ("ok " ^ hopt (trailing_zeros_spec (a 0))) got
-  | "uto" | "to" -> expect ("ok " ^ hopt (trailing_ones_spec (a 0))) got
+  | "utz" | "tz" ->
+      let x = a 0 in
+      let extra = if Zar.numbits x > 128 then fid_opt (trailing_zeros_large w64 (words_of (Zar.abs x))) got else "" in
+      expect ~extra ("ok " ^ hopt (trailing_zeros_spec x)) got
+  | "uto" ->
+      let x = a 0 in
+      let extra = if Zar.numbits x > 128 then fid_opt (trailing_ones_large w64 (words_of x)) got else "" in
+      expect ~extra ("ok " ^ hopt (trailing_ones_spec x)) got
+  | "to" -> expect ("ok " ^ hopt (trailing_ones_spec (a 0))) got
   | "count_ones" -> expect ("ok " ^ hx (count_ones_spec (a 0))) got
   | "count_zeros" -> expect ("ok " ^ hopt (count_zeros_spec (a 0))) got
   | "split_bits" -> let (lo, hi) = split_bits_spec (a 0) (n 1) in expect ("ok " ^ hx lo ^ " " ^ hx hi) got
